@@ -99,6 +99,20 @@ def run_impl(case):
 
     events = Events()
 
+    # payloads: an element is the integer id unless case["payloads"] gives it a falsy stand-in (None, '', False, (), b''); each
+    # stand-in occurs at most once per case and is recognised by identity, never by truthiness or equality
+    specials = {"N": None, "E": "", "F": False, "T": (), "B": b""}
+    payloads = {int(k): v for k, v in (case.get("payloads") or {}).items()}
+
+    def enc(x):
+        return specials[payloads[x]] if x in payloads else x
+
+    def dec(obj):
+        for x, code in payloads.items():
+            if specials[code] is obj and not (type(obj) is int):
+                return x
+        return obj
+
     def note(x, exc):
         if isinstance(exc, Rejected):
             rejected.append(x)
@@ -131,6 +145,7 @@ def run_impl(case):
         in_emit = [None]
 
         def recorder(x):
+            x = dec(x)
             if runaway:
                 raise Runaway()
             events.append(["d", now(), x, in_emit[0] == x])
@@ -141,6 +156,7 @@ def run_impl(case):
         node.sink(recorder)
         if slow:
             async def consumer(x):
+                x = dec(x)
                 c = cost_of(case, x)
                 if c:
                     await asyncio.sleep(c / TICK)
@@ -159,7 +175,7 @@ def run_impl(case):
                 events.append(["a", now(), x])
                 in_emit[0] = x
                 try:
-                    fut = sources[p].emit(x)
+                    fut = sources[p].emit(enc(x))
                 finally:
                     in_emit[0] = None
                 if spec["await"]:
@@ -359,6 +375,11 @@ def gen_case(rng, kind):
         ids = [p * 100 + k for p, spec in enumerate(producers) for k in range(len(spec["gaps"]))]
         case["fail"] = sorted(rng.sample(ids, min(len(ids), rng.choice([1, 1, 2]))))
         case["fail_mode"] = rng.choice(["sync", "awaitable"])
+    if rng.random() < 0.3:
+        # one or two elements are falsy objects (None first of all) instead of integers
+        ids = [p * 100 + k for p, spec in enumerate(producers) for k in range(len(spec["gaps"]))]
+        codes = ["N"] + rng.sample(["E", "F", "T", "B"], 4)
+        case["payloads"] = {str(x): c for x, c in zip(rng.sample(ids, min(len(ids), rng.choice([1, 1, 2]))), codes)}
     return case
 
 
@@ -372,6 +393,11 @@ def C(kind, I, producers, costs=(), topology="single", start=0):
 
 
 CORPUS = [
+    # None and other falsy payloads in the middle of a burst: they are elements like any other
+    dict(C("delay", 8, [P(False, 0, 0, 0, 0, 0, 0)]), payloads={"2": "N", "4": "E"}),
+    dict(C("delay", 8, [P(True, 0, 3, 0, 20, 0)], costs=[3]), payloads={"1": "N"}),
+    dict(C("rate_limit", 8, [P(False, 0, 0, 0, 0, 0)]), payloads={"0": "N", "3": "F"}),
+    dict(C("rate_limit", 8, [P(True, 0, 0, 30, 0)], costs=[2]), payloads={"2": "N", "3": "T"}),
     # one burst of five (the shape of the existing test_rate_limit), exact timing here
     C("rate_limit", 10, [P(False, 0, 0, 0, 0, 0)]),
     # burst, arrival during the backlog, arrival exactly when a slot opens, arrival after a long idle gap
